@@ -40,22 +40,22 @@ func runC12(c *Ctx) {
 	for _, r := range []*fnRef{sites, seqs, maxcs} {
 		c.checkLowerWildcard(r)
 	}
-	L.Floor("lowercase-wildcard", 3, "one ToLower per function")
+	L.Floor("lowercase-wildcard", 1, "one ToLower per function (floor = half of the instances on the pinned tree: a clean-up may merge instances, a rule that sees nothing must still fail)")
 	for _, r := range []*fnRef{sites, seqs} {
 		c.checkIgnoreTests(r, true)
 	}
 	c.checkIgnoreTests(maxcs, true)
-	L.Floor("ignore-test", 3, "one truth table in each of 3 functions")
+	L.Floor("ignore-test", 1, "one truth table in each of 3 functions (floor = half of the instances on the pinned tree: a clean-up may merge instances, a rule that sees nothing must still fail)")
 	for _, r := range []*fnRef{sites, major, seqs} {
 		c.checkCutoff(r)
 	}
-	L.Floor("cutoff-comparison", 6, "threshold + zero arm in 3 functions")
+	L.Floor("cutoff-comparison", 3, "threshold + zero arm in 3 functions (floor = half of the instances on the pinned tree: a clean-up may merge instances, a rule that sees nothing must still fail)")
 	for _, r := range []*fnRef{sites, major} {
 		c.checkRebuild(r)
 	}
 	L.Floor("rebuild-partition", 2, "two site-removal functions")
 	L.Floor("length-bookkeeping", 2, "two site-removal functions")
-	L.Floor("index-lists", 4, "kept and rm in two functions")
+	L.Floor("index-lists", 2, "kept and rm in two functions (floor = half of the instances on the pinned tree: a clean-up may merge instances, a rule that sees nothing must still fail)")
 	c.checkSeqPartition(seqs)
 
 	// index safety
